@@ -414,3 +414,21 @@ PROPS["C01"]["level_text"] = (
     "written where recovery reads next) and of engine::scan_recovery_state (replay skips a committed transaction only if a Checkpoint "
     "for the final manifest covers it; the final manifest is the latest ManifestSwitch with the greatest epoch; max_txid bounds every "
     "txid), plus Kani/CBMC round trips of the fixed-size log records. Known finding: append position after a tolerated garbage tail.")
+
+PROPS["C28"] = {
+    "title": "Vacuum preserves the database",
+    "kani": [],
+    "e2": ["c28"],
+    "functions_encoded": ["csr::encode_meta", "vacuum::mark_csr_segment_pages"],
+    "bounds": {"segment meta": "blob page-id lists of (1,1,1,1), (1,0,0,0) (quick) and (2,2,1,2) (thorough) entries, page ids symbolic in [2, 65536); "
+               "all other header fields symbolic", "image": "8192-byte page as 8-bit terms at concrete positions"},
+    "stubs": ["Cursor::write_all / to_le_bytes / slice iteration (writer) and Pager::read_page / slice indexing / try_into / from_le_bytes / "
+              "Range iteration / BTreeSet::insert (reader) modelled on the byte image"],
+    "assumptions": ["page ids are non-zero (the reader skips zero ids by design)"],
+    "outside_claim": ["catalog / B-tree / blob-chain traversal of vacuum, write_vacuum_copy, the rename protocol, usability after vacuum beyond the witness"],
+    "level_text": "Partial (segment-layout agreement): path-wise symbolic execution (z3) of the real CSR meta-page writer and of vacuum's "
+                  "reader on the same symbolic byte image: vacuum accepts the page and marks every forward- and reverse-index page the "
+                  "writer listed as reachable. Counterexamples are replayed through compact() + vacuum() + reopen.",
+    "level_note": "Trusted: rustc MIR dump, E2 translator and byte-image models, z3.",
+    "design_ref": "DESIGN.md section 3, C28 and section 7",
+}
